@@ -86,7 +86,6 @@ Lemma prim_bytes_length : forall s z, in_stag s z = true -> len (prim_bytes s z)
 Proof.
   intros s z H. unfold len.
   destruct s; cbn [prim_bytes ssize]; try (rewrite be_bytes_length; reflexivity); try reflexivity.
-  cbn [in_stag] in H. unfold utf8. destruct (z <? 128) eqn:E; [reflexivity|lia].
 Qed.
 
 Lemma prim_bytes_inj : forall s z1 z2,
@@ -112,8 +111,8 @@ Proof.
   - (* f128 *)
     change (18446744073709551616 * 18446744073709551616 / 2) with 170141183460469231731687303715884105728 in *.
     eapply (mod_inj_range 340282366920938463463374607431768211456 (-170141183460469231731687303715884105728)); lia.
-  - (* char8, ASCII *) unfold utf8 in H.
-    destruct (z1 <? 128) eqn:E1; [|lia]. destruct (z2 <? 128) eqn:E2; [|lia]. congruence.
+  - (* char8, one octet *) unfold wrap_u8 in H. injection H as H.
+    eapply (mod_inj_range 256 0); lia.
 Qed.
 
 Lemma len_enc_prim : forall pos s z, in_stag s z = true ->
